@@ -20,6 +20,9 @@ GROUPS += [g for g in _c04.GROUPS if "Var.divmod" == g.name.split("/")[1]]
 # the statement loop of assemble() owns two fixed 512-byte token buffers (the `equ` text loop is bounded by its loop invariant ptr < 511)
 import C12 as _c12
 GROUPS += [g for g in _c12.GROUPS if g.name == "C12/assemble"]
+# the symbol table stores the record length in one byte: the long-name scenarios of the Symbols contract (C11) are a memory-safety obligation here
+import C11 as _c11
+GROUPS += [g for g in _c11.GROUPS if "long_name" in g.name]
 LEVEL = "proof"
 TRUSTED = ["the character reader is replaced by a stream contract returning an arbitrary byte or EOF per call (streams shorter than 2^28 characters)", "malloc succeeds; stack depth of the C recursion is not modelled"]
 MANIFEST = {
